@@ -1,6 +1,675 @@
-import LcdbModel.Model.Lsm
-import LcdbModel.Model.DbIter
+/-
+  C06 / C01 at the model level: views are preserved.
+
+  * background work (memtable switch, flush, compaction, snapshot bookkeeping) does not change what
+    any protected sequence (the present, every live snapshot) sees;
+  * a write changes nothing at or below the old last sequence, and at the new last sequence the
+    view is the old one updated by the batch;
+  * hence a snapshot's view is immutable until it is released, and the state reached by any run
+    from the empty database answers like the plain log of its writes.
+-/
+import LcdbModel.Props.C14
+import LcdbModel.Lemmas.LsmStepsView
 namespace Lcdb.C06
-open Lcdb
+open Lcdb Lcdb.C14
+
+/-! ### which entries a step keeps -/
+
+theorem mem_allEntries_flush (c : Cmp) (st : DbState) (level : Nat) (f : FileMeta) (h : Inv c st)
+    (hs : stepOk c st (.flush level f)) (e : Entry) :
+    e ∈ allEntries (applyStep c st (.flush level f)) ↔ e ∈ allEntries st := by
+  obtain ⟨himm, _, hl, _, _⟩ := hs
+  have hl' : level < st.levels.length := by rw [h.nlevels]; exact hl
+  have hmf := mem_allFiles_addFileState c st level f none (max st.nextFile (f.num + 1)) hl'
+  constructor
+  · intro he
+    rcases mem_allEntries.mp he with he1 | ⟨r, hr, _⟩ | ⟨g, hg, he3⟩
+    · exact mem_allEntries.mpr (.inl he1)
+    · cases hr
+    · rcases (hmf g).mp hg with rfl | hg'
+      · exact mem_allEntries.mpr (.inr (.inl ⟨g.run, Option.mem_def.mpr himm, he3⟩))
+      · exact mem_allEntries.mpr (.inr (.inr ⟨g, hg', he3⟩))
+  · intro he
+    rcases mem_allEntries.mp he with he1 | ⟨r, hr, he2⟩ | ⟨g, hg, he3⟩
+    · exact mem_allEntries.mpr (.inl he1)
+    · have : r = f.run := by
+        have := Option.mem_def.mp hr
+        rw [himm] at this
+        exact (Option.some.inj this).symm
+      subst this
+      exact mem_allEntries.mpr (.inr (.inr ⟨f, (hmf f).mpr (.inl rfl), he2⟩))
+    · exact mem_allEntries.mpr (.inr (.inr ⟨g, (hmf g).mpr (.inr hg), he3⟩))
+
+theorem allEntries_switchMem (c : Cmp) (st : DbState) (hs : stepOk c st .switchMem) :
+    allEntries (applyStep c st .switchMem) = allEntries st := by
+  have himm : st.imm = none := hs
+  simp [allEntries, applyStep, allFiles, himm]
+
+theorem allEntries_dropImm (c : Cmp) (st : DbState) (hs : stepOk c st .dropImm) :
+    allEntries (applyStep c st .dropImm) = allEntries st := by
+  have himm : st.imm = some [] := hs
+  simp [allEntries, applyStep, allFiles, himm]
+
+theorem mem_level_compact_of_unpicked (c : Cmp) (st : DbState) (level : Nat) (in0 in1 : List Nat)
+    (outs : List FileMeta) (hl : level + 1 < st.levels.length) {i : Nat} {g : FileMeta}
+    (hg : g ∈ st.level i) (h0 : i = level → g.num ∉ in0) (h1 : i = level + 1 → g.num ∉ in1) :
+    g ∈ (applyStep c st (.compact level in0 in1 outs)).level i := by
+  rw [level_compact c st level in0 in1 outs hl]
+  split
+  · rename_i e; subst e
+    exact mem_addFiles.mpr (.inl (mem_removeNums.mpr ⟨hg, h1 rfl⟩))
+  · split
+    · rename_i e; subst e
+      exact mem_removeNums.mpr ⟨hg, h0 rfl⟩
+    · exact hg
+
+theorem mem_level_compact_of_outs (c : Cmp) (st : DbState) (level : Nat) (in0 in1 : List Nat)
+    (outs : List FileMeta) (hl : level + 1 < st.levels.length) {g : FileMeta} (hg : g ∈ outs) :
+    g ∈ (applyStep c st (.compact level in0 in1 outs)).level (level + 1) := by
+  rw [level_compact c st level in0 in1 outs hl]
+  simp only [if_true]
+  exact mem_addFiles.mpr (.inr hg)
+
+/-- an entry of the state after a compaction is in memory, in an output, or in an unpicked file -/
+theorem compact_entries_cases (c : Cmp) (st : DbState) (level : Nat) (in0 in1 : List Nat)
+    (outs : List FileMeta) (hl : level + 1 < st.levels.length) {e : Entry}
+    (he : e ∈ allEntries (applyStep c st (.compact level in0 in1 outs))) :
+    e ∈ st.mem ∨ (∃ r ∈ st.imm, e ∈ r) ∨ e ∈ outs.flatMap (·.run) ∨
+      ∃ i g, g ∈ st.level i ∧ (i = level → g.num ∉ in0) ∧ (i = level + 1 → g.num ∉ in1) ∧ e ∈ g.run := by
+  rcases mem_allEntries.mp he with he1 | he2 | ⟨g, hg, he3⟩
+  · exact .inl he1
+  · exact .inr (.inl he2)
+  · obtain ⟨i, hi⟩ := mem_allFiles.mp hg
+    rcases mem_level_compact c st level in0 in1 outs hl i g hi with hi' | hi'
+    · exact .inr (.inr (.inr ⟨i, g, hi'.1, hi'.2.1, hi'.2.2, he3⟩))
+    · exact .inr (.inr (.inl (List.mem_flatMap.mpr ⟨g, hi'.1, he3⟩)))
+
+theorem compact_entries_sub (c : Cmp) (st : DbState) (level : Nat) (in0 in1 : List Nat)
+    (outs : List FileMeta) (hl : level + 1 < st.levels.length)
+    (hsub : ∀ e ∈ outs.flatMap (·.run), e ∈ compactIns st level in0 in1) {e : Entry}
+    (he : e ∈ allEntries (applyStep c st (.compact level in0 in1 outs))) : e ∈ allEntries st := by
+  rcases compact_entries_cases c st level in0 in1 outs hl he with h | h | h | ⟨i, g, hg, _, _, heg⟩
+  · exact mem_allEntries.mpr (.inl h)
+  · exact mem_allEntries.mpr (.inr (.inl h))
+  · exact compactIns_sub (hsub e h)
+  · exact mem_allEntries.mpr (.inr (.inr ⟨g, mem_allFiles.mpr ⟨i, hg⟩, heg⟩))
+
+/-- an entry of the old state survives the compaction or was one of its inputs -/
+theorem compact_entries_kept (c : Cmp) (st : DbState) (level : Nat) (in0 in1 : List Nat)
+    (outs : List FileMeta) (hl : level + 1 < st.levels.length) {e : Entry}
+    (he : e ∈ allEntries st) :
+    e ∈ allEntries (applyStep c st (.compact level in0 in1 outs)) ∨ e ∈ compactIns st level in0 in1 := by
+  rcases mem_allEntries.mp he with he1 | he2 | ⟨g, hg, he3⟩
+  · exact .inl (mem_allEntries.mpr (.inl he1))
+  · exact .inl (mem_allEntries.mpr (.inr (.inl he2)))
+  · obtain ⟨i, hi⟩ := mem_allFiles.mp hg
+    by_cases h0 : i = level ∧ g.num ∈ in0
+    · obtain ⟨rfl, h0⟩ := h0
+      exact .inr (mem_compactIns.mpr ⟨g, .inl ⟨hi, h0⟩, he3⟩)
+    · by_cases h1 : i = level + 1 ∧ g.num ∈ in1
+      · obtain ⟨rfl, h1⟩ := h1
+        exact .inr (mem_compactIns.mpr ⟨g, .inr ⟨hi, h1⟩, he3⟩)
+      · refine .inl (mem_allEntries.mpr (.inr (.inr ⟨g, mem_allFiles.mpr ⟨i, ?_⟩, he3⟩)))
+        apply mem_level_compact_of_unpicked c st level in0 in1 outs hl hi
+        · intro e1 e2; exact h0 ⟨e1, e2⟩
+        · intro e1 e2; exact h1 ⟨e1, e2⟩
+
+theorem compact_outs_mem (c : Cmp) (st : DbState) (level : Nat) (in0 in1 : List Nat)
+    (outs : List FileMeta) (hl : level + 1 < st.levels.length) {e : Entry}
+    (he : e ∈ outs.flatMap (·.run)) : e ∈ allEntries (applyStep c st (.compact level in0 in1 outs)) := by
+  obtain ⟨g, hg, heg⟩ := List.mem_flatMap.mp he
+  exact mem_allEntries.mpr (.inr (.inr
+    ⟨g, mem_allFiles.mpr ⟨_, mem_level_compact_of_outs c st level in0 in1 outs hl hg⟩, heg⟩))
+
+/-! ### background steps preserve views -/
+
+theorem flush_preserves_view (c : Cmp) (st : DbState) (level : Nat) (f : FileMeta) (h : Inv c st)
+    (hnt : NoSeqTies c st) (hs : stepOk c st (.flush level f)) (k : Bytes) (q : Nat) :
+    view c (allEntries (applyStep c st (.flush level f))) k q = view c (allEntries st) k q :=
+  view_congr hnt.keyNoTies (fun e _ _ => mem_allEntries_flush c st level f h hs e)
+
+theorem switchMem_preserves_view (c : Cmp) (st : DbState) (hs : stepOk c st .switchMem)
+    (k : Bytes) (q : Nat) :
+    view c (allEntries (applyStep c st .switchMem)) k q = view c (allEntries st) k q := by
+  rw [allEntries_switchMem c st hs]
+
+theorem dropImm_preserves_view (c : Cmp) (st : DbState) (hs : stepOk c st .dropImm)
+    (k : Bytes) (q : Nat) :
+    view c (allEntries (applyStep c st .dropImm)) k q = view c (allEntries st) k q := by
+  rw [allEntries_dropImm c st hs]
+
+/-- 7. snapshot bookkeeping changes no view at all -/
+theorem other_snapshots_irrelevant (c : Cmp) (st : DbState) (s' : Nat) (k : Bytes) (q : Nat) :
+    view c (allEntries (applyStep c st .snapshot)) k q = view c (allEntries st) k q ∧
+    view c (allEntries (applyStep c st (.release s'))) k q = view c (allEntries st) k q ∧
+    allEntries (applyStep c st .snapshot) = allEntries st ∧
+    allEntries (applyStep c st (.release s')) = allEntries st :=
+  ⟨rfl, rfl, rfl, rfl⟩
+
+/-- the heart of compaction correctness: if the outputs answer like the inputs for key `k` at
+    sequence `q` (contract (c)), the whole state does -/
+theorem compact_view_of_sameAnswer (c : Cmp) (st : DbState) (level : Nat) (in0 in1 : List Nat)
+    (outs : List FileMeta) (h : Inv c st) (hnt : NoSeqTies c st)
+    (hs : stepOk c st (.compact level in0 in1 outs)) (k : Bytes) (q : Nat)
+    (hsame : ∀ e ∈ compactIns st level in0 in1, e.ukey = k →
+      sameAnswer c st level (compactIns st level in0 in1) (outs.flatMap (·.run)) k q = true) :
+    view c (allEntries (applyStep c st (.compact level in0 in1 outs))) k q =
+      view c (allEntries st) k q := by
+  obtain ⟨hl, _, _, _, hstay, hstay1, _, _, _, _, hsub, _, _⟩ := hs
+  have hl' : level + 1 < st.levels.length := by rw [h.nlevels]; exact hl
+  have hK := hnt.keyNoTies
+  have hR := h.toRec
+  have hF1 : ∀ e, e ∈ allEntries (applyStep c st (.compact level in0 in1 outs)) → e ∈ allEntries st :=
+    fun e he => compact_entries_sub c st level in0 in1 outs hl' hsub he
+  have hK' : KeyNoTies (allEntries (applyStep c st (.compact level in0 in1 outs))) :=
+    fun x hx y hy => hK x (hF1 x hx) y (hF1 y hy)
+  cases hn : newestVisible c (allEntries st) k q with
+  | none =>
+    have : newestVisible c (allEntries (applyStep c st (.compact level in0 in1 outs))) k q = none := by
+      rw [newestVisible_eq_none_iff] at hn ⊢
+      exact fun e he => hn e (hF1 e he)
+    simp [view, hn, this]
+  | some m =>
+    obtain ⟨hm1, hm2, hm3, hm4⟩ := newestVisible_spec hn
+    by_cases hmE' : m ∈ allEntries (applyStep c st (.compact level in0 in1 outs))
+    · have : newestVisible c (allEntries (applyStep c st (.compact level in0 in1 outs))) k q = some m :=
+        newestVisible_eq_some_of hK' hmE' hm2 hm3 (fun e he => hm4 e (hF1 e he))
+      simp [view, hn, this]
+    · have hmins : m ∈ compactIns st level in0 in1 :=
+        (compact_entries_kept c st level in0 in1 outs hl' hm1).resolve_left hmE'
+      have hKins : KeyNoTies (compactIns st level in0 in1) :=
+        fun x hx y hy => hK x (compactIns_sub hx) y (compactIns_sub hy)
+      have ha : newestVisible c (compactIns st level in0 in1) k q = some m :=
+        newestVisible_eq_some_of hKins hmins hm2 hm3 (fun e he => hm4 e (compactIns_sub he))
+      have hsa := hsame m hmins hm2
+      unfold sameAnswer at hsa
+      rw [ha] at hsa
+      cases hb : newestVisible c (outs.flatMap (·.run)) k q with
+      | some b =>
+        rw [hb] at hsa
+        simp at hsa
+        subst hsa
+        exact absurd (compact_outs_mem c st level in0 in1 outs hl' (newestVisible_spec hb).1) hmE'
+      | none =>
+        rw [hb] at hsa
+        simp at hsa
+        obtain ⟨hkind, hdeep⟩ := hsa
+        have hnone : newestVisible c (allEntries (applyStep c st (.compact level in0 in1 outs))) k q
+            = none := by
+          rw [newestVisible_eq_none_iff]
+          intro e he hek hes
+          have hle := hm4 e (hF1 e he) hek hes
+          have hne : e ≠ m := fun h => hmE' (h ▸ he)
+          have hlt : e.seq < m.seq := by
+            by_cases heq : e.seq = m.seq
+            · exact absurd (hK e (hF1 e he) m hm1 (hek.trans hm2.symm) heq) hne
+            · omega
+          obtain ⟨gm, hgm, hmgm⟩ := mem_compactIns.mp hmins
+          have hgmFile : gm ∈ allFiles st := by
+            rcases hgm with hgm | hgm
+            · exact mem_allFiles.mpr ⟨_, hgm.1⟩
+            · exact mem_allFiles.mpr ⟨_, hgm.1⟩
+          have hcmp : c.compare e.ukey m.ukey = .eq := (cmp_eq_iff c _ _).mpr (hek.trans hm2.symm)
+          rcases compact_entries_cases c st level in0 in1 outs hl' he with
+            he1 | ⟨r, hr, he2⟩ | he3 | ⟨i, g, hg, hu0, hu1, heg⟩
+          · have := hR.memFiles gm hgmFile e he1 m hmgm hcmp
+            omega
+          · have := hR.immFiles r hr gm hgmFile e he2 m hmgm hcmp
+            omega
+          · exact (newestVisible_eq_none_iff.mp hb) e he3 hek hes
+          · by_cases hi1 : i < level
+            · rcases hgm with hgm | hgm
+              · have := hR.levels i level hi1 g hg gm hgm.1 e heg m hmgm hcmp
+                omega
+              · have := hR.levels i (level + 1) (by omega) g hg gm hgm.1 e heg m hmgm hcmp
+                omega
+            · by_cases hi2 : i = level
+              · subst hi2
+                rcases hgm with hgm | hgm
+                · have := hstay g (mem_removeNums.mpr ⟨hg, hu0 rfl⟩) gm (mem_pickNums.mpr hgm)
+                    e heg m hmgm hcmp
+                  omega
+                · have := hR.levels i (i + 1) (by omega) g hg gm hgm.1 e heg m hmgm hcmp
+                  omega
+              · by_cases hi3 : i = level + 1
+                · subst hi3
+                  have := hstay1 g (mem_removeNums.mpr ⟨hg, hu1 rfl⟩) e heg m hmins hcmp
+                  omega
+                · have := keyInDeeperLevels_of_mem (c := c) (level := level + 1) (by omega) hg heg hek
+                  rw [this] at hdeep
+                  cases hdeep
+        have hk1 : (m.kind == 1) = false := by simp [hkind]
+        simp [view, hn, hnone, hk1]
+
+theorem compact_preserves_view (c : Cmp) (st : DbState) (level : Nat) (in0 in1 : List Nat)
+    (outs : List FileMeta) (h : Inv c st) (hnt : NoSeqTies c st)
+    (hs : stepOk c st (.compact level in0 in1 outs)) (k : Bytes) (q : Nat)
+    (hq : q ∈ protectedSeqs st) :
+    view c (allEntries (applyStep c st (.compact level in0 in1 outs))) k q =
+      view c (allEntries st) k q := by
+  apply compact_view_of_sameAnswer c st level in0 in1 outs h hnt hs k q
+  intro e he hk
+  have := hs.2.2.2.2.2.2.2.2.2.2.2.1 e he q hq
+  rw [hk] at this
+  exact this
+
+/-- 4. background work preserves the view at every protected sequence -/
+theorem background_preserves_view (c : Cmp) (st : DbState) (s : Step) (h : Inv c st)
+    (hnt : NoSeqTies c st) (hs : stepOk c st s) (hbg : s.isBackground = true) (k : Bytes) (q : Nat)
+    (hq : q ∈ protectedSeqs st) :
+    view c (allEntries (applyStep c st s)) k q = view c (allEntries st) k q := by
+  cases s with
+  | write ops => cases hbg
+  | addL0 f => cases hbg
+  | switchMem => exact switchMem_preserves_view c st hs k q
+  | flush level f => exact flush_preserves_view c st level f h hnt hs k q
+  | dropImm => exact dropImm_preserves_view c st hs k q
+  | compact level in0 in1 outs => exact compact_preserves_view c st level in0 in1 outs h hnt hs k q hq
+  | snapshot => rfl
+  | release s => rfl
+  | bumpNextFile n => rfl
+
+/-! ### writes -/
+
+theorem allEntries_write (c : Cmp) (st : DbState) (ops : List WOp) :
+    allEntries (applyStep c st (.write ops)) =
+      applyOps c st.mem (st.lastSeq + 1) ops ++ (st.imm.getD [] ++ (allFiles st).flatMap (·.run)) := by
+  simp [allEntries, applyStep, allFiles]
+
+theorem allEntries_eq (st : DbState) :
+    allEntries st = st.mem ++ (st.imm.getD [] ++ (allFiles st).flatMap (·.run)) := by
+  simp [allEntries]
+
+/-- 5. a write is invisible at every sequence up to the old last sequence, and at the new last
+    sequence the view is the old one updated by the batch -/
+theorem write_view (c : Cmp) (st : DbState) (ops : List WOp) (h : Inv c st)
+    (_hs : stepOk c st (.write ops)) (k : Bytes) :
+    (∀ q, q ≤ st.lastSeq →
+      view c (allEntries (applyStep c st (.write ops))) k q = view c (allEntries st) k q) ∧
+    view c (allEntries (applyStep c st (.write ops))) k (st.lastSeq + ops.length) =
+      applyOpsView c k ops (view c (allEntries st) k st.lastSeq) := by
+  constructor
+  · intro q hq
+    rw [allEntries_write, allEntries_eq st]
+    have hv : ∀ rest : List Entry,
+        visibleEntries c (applyOps c st.mem (st.lastSeq + 1) ops ++ rest) k q =
+          visibleEntries c (st.mem ++ rest) k q := by
+      intro rest
+      unfold visibleEntries
+      rw [List.filter_append, List.filter_append, filter_applyOps_of_false]
+      intro e he
+      have := (mem_opsEntries he).1
+      have : ¬ e.seq ≤ q := by omega
+      simp [this]
+    unfold view newestVisible
+    rw [hv]
+  · rw [allEntries_write, allEntries_eq st]
+    apply view_applyOps
+    intro x hx
+    exact h.seqBound x (by rw [allEntries_eq st]; exact hx)
+
+/-! ### `NoSeqTies` is an invariant of reachable states -/
+
+theorem initial_entries : allEntries emptyState = [] := rfl
+
+theorem initial_noSeqTies (c : Cmp) : NoSeqTies c emptyState := by
+  intro x hx
+  rw [initial_entries] at hx
+  cases hx
+
+theorem write_preserves_noSeqTies (c : Cmp) (st : DbState) (ops : List WOp) (h : Inv c st)
+    (hnt : NoSeqTies c st) : NoSeqTies c (applyStep c st (.write ops)) := by
+  have hmem : ∀ e, e ∈ allEntries (applyStep c st (.write ops)) →
+      e ∈ allEntries st ∨ e ∈ opsEntries (st.lastSeq + 1) ops := by
+    intro e he
+    rw [allEntries_write] at he
+    rw [allEntries_eq st]
+    rcases List.mem_append.mp he with he | he
+    · rcases mem_applyOps.mp he with he | he
+      · exact .inl (List.mem_append.mpr (.inl he))
+      · exact .inr he
+    · exact .inl (List.mem_append.mpr (.inr he))
+  intro x hx y hy hk hs
+  rcases hmem x hx with hx' | hx' <;> rcases hmem y hy with hy' | hy'
+  · exact hnt x hx' y hy' hk hs
+  · have := h.seqBound x hx'
+    have := (mem_opsEntries hy').1
+    omega
+  · have := h.seqBound y hy'
+    have := (mem_opsEntries hx').1
+    omega
+  · exact opsEntries_seq_inj hx' hy' hs
+
+theorem addL0_preserves_noSeqTies (c : Cmp) (st : DbState) (f : FileMeta) (h : Inv c st)
+    (hnt : NoSeqTies c st) (hs : stepOk c st (.addL0 f)) :
+    NoSeqTies c (applyStep c st (.addL0 f)) := by
+  obtain ⟨_, hmem, himm, _, hsrc, _, hties, _⟩ := hs
+  have hl' : 0 < st.levels.length := by rw [h.nlevels]; omega
+  have hmf := mem_allFiles_addFileState c st 0 f st.imm (max st.nextFile (f.num + 1)) hl'
+  have hcases : ∀ e, e ∈ allEntries (applyStep c st (.addL0 f)) →
+      e ∈ f.run ∨ ∃ g ∈ allFiles st, e ∈ g.run := by
+    intro e he
+    rcases mem_allEntries.mp he with he1 | ⟨r, hr, _⟩ | ⟨g, hg, he3⟩
+    · have : e ∈ st.mem := he1
+      rw [hmem] at this; cases this
+    · have : r ∈ st.imm := hr
+      rw [himm] at this; cases this
+    · rcases (hmf g).mp hg with rfl | hg'
+      · exact .inl he3
+      · exact .inr ⟨g, hg', he3⟩
+  have hnew : ∀ x ∈ f.run, ∀ g ∈ allFiles st, ∀ y ∈ g.run, c.compare x.ukey y.ukey = .eq →
+      x.seq > y.seq := by
+    intro x hx g hg y hy hk
+    obtain ⟨r, hr, hsub⟩ := sourceRuns_cover st hg
+    exact hsrc r hr x hx y (hsub y hy) hk
+  intro x hx y hy hk hs
+  rcases hcases x hx with hx' | ⟨g, hg, hx'⟩ <;> rcases hcases y hy with hy' | ⟨g', hg', hy'⟩
+  · exact hties x hx' y hy' hk hs
+  · have := hnew x hx' g' hg' y hy' hk
+    omega
+  · have := hnew y hy' g hg x hx' (by rw [cmp_swap c x.ukey y.ukey, hk]; rfl)
+    omega
+  · exact hnt x (mem_allEntries.mpr (.inr (.inr ⟨g, hg, hx'⟩))) y
+      (mem_allEntries.mpr (.inr (.inr ⟨g', hg', hy'⟩))) hk hs
+
+theorem step_preserves_noSeqTies (c : Cmp) (st : DbState) (s : Step) (h : Inv c st)
+    (hnt : NoSeqTies c st) (hs : stepOk c st s) : NoSeqTies c (applyStep c st s) := by
+  cases s with
+  | write ops => exact write_preserves_noSeqTies c st ops h hnt
+  | addL0 f => exact addL0_preserves_noSeqTies c st f h hnt hs
+  | switchMem => exact hnt.of_subset (fun e he => by rwa [allEntries_switchMem c st hs] at he)
+  | flush level f => exact hnt.of_subset (fun e he => (mem_allEntries_flush c st level f h hs e).mp he)
+  | dropImm => exact hnt.of_subset (fun e he => by rwa [allEntries_dropImm c st hs] at he)
+  | compact level in0 in1 outs =>
+    have hl' : level + 1 < st.levels.length := by rw [h.nlevels]; exact hs.1
+    exact hnt.of_subset (fun e he =>
+      compact_entries_sub c st level in0 in1 outs hl' hs.2.2.2.2.2.2.2.2.2.2.1 he)
+  | snapshot => exact hnt
+  | release s => exact hnt
+  | bumpNextFile n => exact hnt
+
+theorem steps_preserve_noSeqTies (c : Cmp) (st : DbState) (steps : List Step) (h : Inv c st)
+    (hnt : NoSeqTies c st) (hs : StepsOk c st steps) : NoSeqTies c (runSteps c st steps) := by
+  induction steps generalizing st with
+  | nil => exact hnt
+  | cons s ss ih =>
+    exact ih _ (step_preserves_inv c st s h hs.1) (step_preserves_noSeqTies c st s h hnt hs.1) hs.2
+
+/-! ### snapshots are immutable views -/
+
+/-- one step that is neither recovery nor the release of `q` keeps `q` live and its view intact -/
+theorem step_snapshot_view (c : Cmp) (st : DbState) (s : Step) (h : Inv c st) (hnt : NoSeqTies c st)
+    (hs : stepOk c st s) (q : Nat) (hq : q ∈ st.snaps) (hrel : s ≠ .release q)
+    (hno : s.isAddL0 = false) (k : Bytes) :
+    q ∈ (applyStep c st s).snaps ∧
+      view c (allEntries (applyStep c st s)) k q = view c (allEntries st) k q := by
+  have hprot : q ∈ protectedSeqs st := List.mem_cons_of_mem _ hq
+  cases s with
+  | write ops => exact ⟨hq, (write_view c st ops h hs k).1 q (h.snapsBound q hq)⟩
+  | addL0 f => cases hno
+  | switchMem => exact ⟨hq, switchMem_preserves_view c st hs k q⟩
+  | flush level f => exact ⟨hq, flush_preserves_view c st level f h hnt hs k q⟩
+  | dropImm => exact ⟨hq, dropImm_preserves_view c st hs k q⟩
+  | compact level in0 in1 outs =>
+    exact ⟨hq, compact_preserves_view c st level in0 in1 outs h hnt hs k q hprot⟩
+  | snapshot => exact ⟨List.mem_append.mpr (.inl hq), rfl⟩
+  | release s' =>
+    refine ⟨?_, rfl⟩
+    have : q ≠ s' := fun e => hrel (by rw [e])
+    exact (List.mem_erase_of_ne this).mpr hq
+  | bumpNextFile n => exact ⟨hq, rfl⟩
+
+/-- 6. along any run of contract-respecting steps (no recovery step), a snapshot that is not
+    released sees, for every key, exactly what it saw when the run started -/
+theorem snapshot_view_stable (c : Cmp) (st : DbState) (steps : List Step) (h : Inv c st)
+    (hnt : NoSeqTies c st) (hs : StepsOk c st steps) (q : Nat) (hq : q ∈ st.snaps)
+    (hrel : ∀ s ∈ steps, s ≠ .release q) (hno : ∀ s ∈ steps, s.isAddL0 = false) (k : Bytes) :
+    view c (allEntries (runSteps c st steps)) k q = view c (allEntries st) k q := by
+  induction steps generalizing st with
+  | nil => rfl
+  | cons s ss ih =>
+    have h1 := step_snapshot_view c st s h hnt hs.1 q hq (hrel s (by simp)) (hno s (by simp)) k
+    have := ih (applyStep c st s) (step_preserves_inv c st s h hs.1)
+      (step_preserves_noSeqTies c st s h hnt hs.1) hs.2 h1.1
+      (fun s' hs' => hrel s' (List.mem_cons_of_mem _ hs'))
+      (fun s' hs' => hno s' (List.mem_cons_of_mem _ hs'))
+    exact this.trans h1.2
+
+/-! ### the state answers like the log of its writes -/
+
+theorem history_refines_gen (c : Cmp) (st : DbState) (steps : List Step) (H : List Entry)
+    (h : Inv c st) (hnt : NoSeqTies c st) (hs : StepsOk c st steps)
+    (hno : ∀ s ∈ steps, s.isAddL0 = false)
+    (hH : ∀ x ∈ H, x.seq ≤ st.lastSeq)
+    (hview : ∀ k, view c (allEntries st) k st.lastSeq = view c H k st.lastSeq) (k : Bytes) :
+    view c (allEntries (runSteps c st steps)) k (runSteps c st steps).lastSeq =
+      view c (H ++ historyOf st.lastSeq steps) k (runSteps c st steps).lastSeq := by
+  induction steps generalizing st H with
+  | nil => simpa [runSteps, historyOf] using hview k
+  | cons s ss ih =>
+    have hinv' := step_preserves_inv c st s h hs.1
+    have hnt' := step_preserves_noSeqTies c st s h hnt hs.1
+    have hno' : ∀ s' ∈ ss, s'.isAddL0 = false := fun s' hs' => hno s' (List.mem_cons_of_mem _ hs')
+    -- background steps: nothing changes at the present sequence
+    have hbg : s.isBackground = true → (applyStep c st s).lastSeq = st.lastSeq →
+        historyOf st.lastSeq (s :: ss) = historyOf st.lastSeq ss →
+        view c (allEntries (runSteps c st (s :: ss))) k (runSteps c st (s :: ss)).lastSeq =
+          view c (H ++ historyOf st.lastSeq (s :: ss)) k (runSteps c st (s :: ss)).lastSeq := by
+      intro hb hls hhist
+      have := ih (applyStep c st s) H hinv' hnt' hs.2 hno' (by rw [hls]; exact hH)
+        (by
+          intro k'
+          rw [hls, background_preserves_view c st s h hnt hs.1 hb k' st.lastSeq (by simp [protectedSeqs])]
+          exact hview k')
+      rw [hls] at this
+      rw [hhist]
+      exact this
+    cases s with
+    | write ops =>
+      have hw := fun k' => (write_view c st ops h hs.1 k').2
+      have hH' : ∀ x ∈ H ++ opsEntries (st.lastSeq + 1) ops, x.seq ≤ st.lastSeq + ops.length := by
+        intro x hx
+        rcases List.mem_append.mp hx with hx | hx
+        · have := hH x hx; omega
+        · have := (mem_opsEntries hx).2.1; omega
+      have := ih (applyStep c st (.write ops)) (H ++ opsEntries (st.lastSeq + 1) ops) hinv' hnt' hs.2 hno'
+        hH'
+        (by
+          intro k'
+          show view c (allEntries (applyStep c st (.write ops))) k' (st.lastSeq + ops.length) = _
+          rw [hw k', hview k']
+          exact (view_append_opsEntries c H st.lastSeq ops k' hH).symm)
+      simpa [runSteps, historyOf, List.append_assoc, applyStep] using this
+    | addL0 f => have := hno (.addL0 f) (by simp); cases this
+    | switchMem => exact hbg rfl rfl rfl
+    | flush level f => exact hbg rfl rfl rfl
+    | dropImm => exact hbg rfl rfl rfl
+    | compact level in0 in1 outs => exact hbg rfl rfl rfl
+    | snapshot => exact hbg rfl rfl rfl
+    | release s' => exact hbg rfl rfl rfl
+    | bumpNextFile n => exact hbg rfl rfl rfl
+
+/-- 8. whatever flushes and compactions happened in between, the state reached from the empty
+    database answers, at its last sequence, like the plain log of all writes -/
+theorem history_refines (c : Cmp) (steps : List Step) (hs : StepsOk c emptyState steps)
+    (hno : ∀ s ∈ steps, s.isAddL0 = false) (k : Bytes) :
+    view c (allEntries (runSteps c emptyState steps)) k (runSteps c emptyState steps).lastSeq =
+      view c (historyOf 0 steps) k (runSteps c emptyState steps).lastSeq := by
+  have := history_refines_gen c emptyState steps [] (initial_inv c) (initial_noSeqTies c) hs hno
+    (by intro x hx; cases hx) (by intro k'; rw [initial_entries]) k
+  simpa [emptyState] using this
+
+/-! ### 9. compaction preserves the view at every sequence from the oldest protected one on -/
+
+theorem foldl_min_mem (l : List Nat) (a : Nat) : l.foldl min a = a ∨ l.foldl min a ∈ l := by
+  induction l generalizing a with
+  | nil => exact .inl rfl
+  | cons x xs ih =>
+    simp only [List.foldl_cons]
+    rcases ih (min a x) with h | h
+    · rw [h]
+      by_cases hax : a ≤ x
+      · exact .inl (Nat.min_eq_left hax)
+      · exact .inr (by rw [Nat.min_eq_right (by omega)]; simp)
+    · exact .inr (List.mem_cons_of_mem _ h)
+
+theorem smallestProtected_mem (st : DbState) : smallestProtected st ∈ protectedSeqs st := by
+  unfold smallestProtected
+  rcases foldl_min_mem (protectedSeqs st) st.lastSeq with h | h
+  · rw [h]; simp [protectedSeqs]
+  · exact h
+
+/-- between two read sequences with no entry of key `k` in between, the visible entries agree -/
+theorem visibleEntries_eq_of_bound {c : Cmp} {es : List Entry} {k : Bytes} {q q' : Nat}
+    (hq : q' ≤ q) (hb : ∀ x ∈ es, x.ukey = k → x.seq ≤ q → x.seq ≤ q') :
+    visibleEntries c es k q = visibleEntries c es k q' := by
+  unfold visibleEntries
+  apply List.filter_congr
+  intro x hx
+  by_cases hk : c.compare x.ukey k = .eq
+  · have hk' := (cmp_eq_iff c _ _).mp hk
+    have := hb x hx hk'
+    by_cases h1 : x.seq ≤ q
+    · have h2 := this h1
+      simp [h1, h2]
+    · have h2 : ¬ x.seq ≤ q' := by omega
+      simp [h1, h2]
+  · have hf : (c.compare x.ukey k == Ordering.eq) = false := by
+      cases hc : c.compare x.ukey k <;> simp_all
+    rw [hf]; rfl
+
+theorem sameAnswer_congr_seq {c : Cmp} {st : DbState} {level : Nat} {ins outE : List Entry}
+    {k : Bytes} {q q' : Nat} (h1 : visibleEntries c ins k q = visibleEntries c ins k q')
+    (h2 : visibleEntries c outE k q = visibleEntries c outE k q') :
+    sameAnswer c st level ins outE k q = sameAnswer c st level ins outE k q' := by
+  unfold sameAnswer newestVisible
+  rw [h1, h2]
+
+/-- under clauses two and three of contract (c), the outputs answer like the inputs at EVERY
+    sequence `q ≥ smallestProtected st` (breakpoint argument) -/
+theorem sameAnswer_above (c : Cmp) (st : DbState) (level : Nat) (in0 in1 : List Nat)
+    (outs : List FileMeta) (hs : stepOk c st (.compact level in0 in1 outs)) (q : Nat)
+    (hq : smallestProtected st ≤ q) (e : Entry) (he : e ∈ compactIns st level in0 in1) :
+    sameAnswer c st level (compactIns st level in0 in1) (outs.flatMap (·.run)) e.ukey q = true := by
+  obtain ⟨_, _, _, _, _, _, _, _, _, _, hsub, hprot, habove⟩ := hs
+  cases hn : newestVisible c (compactIns st level in0 in1) e.ukey q with
+  | none =>
+    have hn' : newestVisible c (outs.flatMap (·.run)) e.ukey q = none := by
+      rw [newestVisible_eq_none_iff] at hn ⊢
+      exact fun x hx => hn x (hsub x hx)
+    unfold sameAnswer
+    rw [hn, hn']
+  | some m =>
+    obtain ⟨hm1, hm2, hm3, hm4⟩ := newestVisible_spec hn
+    by_cases hm : smallestProtected st ≤ m.seq
+    · have h1 := visibleEntries_eq_of_bound (c := c) (k := e.ukey) hm3 hm4
+      have h2 := visibleEntries_eq_of_bound (c := c) (es := outs.flatMap (·.run)) (k := e.ukey) hm3
+        (fun x hx => hm4 x (hsub x hx))
+      rw [sameAnswer_congr_seq h1 h2]
+      exact habove e he m hm1 hm
+    · have hb : ∀ x ∈ compactIns st level in0 in1, x.ukey = e.ukey → x.seq ≤ q →
+          x.seq ≤ smallestProtected st := by
+        intro x hx hk hxq
+        have := hm4 x hx hk hxq
+        omega
+      have h1 := visibleEntries_eq_of_bound (c := c) (k := e.ukey) hq hb
+      have h2 := visibleEntries_eq_of_bound (c := c) (es := outs.flatMap (·.run)) (k := e.ukey) hq
+        (fun x hx => hb x (hsub x hx))
+      rw [sameAnswer_congr_seq h1 h2]
+      exact hprot e he _ (smallestProtected_mem st)
+
+theorem compact_preserves_view_above (c : Cmp) (st : DbState) (level : Nat) (in0 in1 : List Nat)
+    (outs : List FileMeta) (h : Inv c st) (hnt : NoSeqTies c st)
+    (hs : stepOk c st (.compact level in0 in1 outs)) (k : Bytes) (q : Nat)
+    (hq : smallestProtected st ≤ q) :
+    view c (allEntries (applyStep c st (.compact level in0 in1 outs))) k q =
+      view c (allEntries st) k q := by
+  apply compact_view_of_sameAnswer c st level in0 in1 outs h hnt hs k q
+  intro e he hk
+  have := sameAnswer_above c st level in0 in1 outs hs q hq e he
+  rw [hk] at this
+  exact this
+
+/-! ### non-vacuity: the hypotheses hold on concrete states, and the conclusions are as expected -/
+
+namespace Ex
+open Lcdb.C14.Ex
+
+theorem ntA : NoSeqTies .bytewise stA := by decide
+theorem ntB : NoSeqTies .bytewise stB := by decide
+theorem ntC : NoSeqTies .bytewise stC := by decide
+theorem ntD : NoSeqTies .bytewise stD := by decide
+
+example : 6 ∈ protectedSeqs stA ∧ 10 ∈ protectedSeqs stA := by decide
+
+-- 4. background steps
+example (k : Bytes) : view .bytewise (allEntries (applyStep .bytewise stA compact01)) k 6 =
+    view .bytewise (allEntries stA) k 6 :=
+  background_preserves_view _ _ _ invA ntA okCompact01 rfl k 6 (by decide)
+example (k : Bytes) : view .bytewise (allEntries (applyStep .bytewise stA compact12)) k 10 =
+    view .bytewise (allEntries stA) k 10 :=
+  background_preserves_view _ _ _ invA ntA okCompact12 rfl k 10 (by decide)
+example (k : Bytes) : view .bytewise (allEntries (applyStep .bytewise stA (.flush 0 g7))) k 6 =
+    view .bytewise (allEntries stA) k 6 :=
+  background_preserves_view _ _ _ invA ntA okFlush0 rfl k 6 (by decide)
+example (k : Bytes) : view .bytewise (allEntries (applyStep .bytewise stB (.flush 1 g7b))) k 10 =
+    view .bytewise (allEntries stB) k 10 :=
+  background_preserves_view _ _ _ invB ntB okFlush1 rfl k 10 (by decide)
+example (k : Bytes) : view .bytewise (allEntries (applyStep .bytewise stC .switchMem)) k 10 =
+    view .bytewise (allEntries stC) k 10 :=
+  background_preserves_view _ _ _ invC ntC okSwitch rfl k 10 (by decide)
+example (k : Bytes) : view .bytewise (allEntries (applyStep .bytewise stD .dropImm)) k 6 =
+    view .bytewise (allEntries stD) k 6 :=
+  background_preserves_view _ _ _ invD ntD okDrop rfl k 6 (by decide)
+/-- the protected-sequence hypothesis matters: below the oldest snapshot a compaction does change
+    the view (`(k1, 3)` was dropped because `(k1, 5)` shadows it from sequence 5 on) -/
+example : view .bytewise (allEntries stA) k1 4 = some "z" ∧
+    view .bytewise (allEntries (applyStep .bytewise stA compact01)) k1 4 = some "old" := by decide
+
+-- 9. every sequence from the oldest snapshot on
+example : smallestProtected stA = 6 := by decide
+example (k : Bytes) : view .bytewise (allEntries (applyStep .bytewise stA compact01)) k 8 =
+    view .bytewise (allEntries stA) k 8 :=
+  compact_preserves_view_above _ _ _ _ _ _ invA ntA okCompact01 k 8 (by decide)
+
+-- 5. writes
+example : (∀ q, q ≤ 10 → view .bytewise (allEntries (applyStep .bytewise stA writeA)) k1 q =
+      view .bytewise (allEntries stA) k1 q) ∧
+    view .bytewise (allEntries (applyStep .bytewise stA writeA)) k1 12 = none :=
+  write_view _ _ _ invA okWrite k1
+example : view .bytewise (allEntries stA) k1 10 = some "m" ∧
+    applyOpsView .bytewise k1 [⟨k2, 1, "n"⟩, ⟨k1, 0, ""⟩] (some "m") = none ∧
+    applyOpsView .bytewise k2 [⟨k2, 1, "n"⟩, ⟨k1, 0, ""⟩] none = some "n" := by decide
+
+-- 6. the snapshot taken after the first batch keeps seeing `k1 ↦ a`, `k2 ↦ b` through the
+--    deletion, the overwrite, both flushes and the compaction
+def stSnap : DbState := runSteps .bytewise emptyState prefix1
+
+theorem okPrefix : StepsOk .bytewise emptyState prefix1 := by decide
+theorem okMiddle : StepsOk .bytewise stSnap middle1 := by decide
+
+example (k : Bytes) : view .bytewise (allEntries (runSteps .bytewise stSnap middle1)) k 2 =
+    view .bytewise (allEntries stSnap) k 2 :=
+  snapshot_view_stable _ _ _ (steps_preserve_inv _ _ _ (initial_inv _) okPrefix)
+    (steps_preserve_noSeqTies _ _ _ (initial_inv _) (initial_noSeqTies _) okPrefix) okMiddle 2
+    (by decide) (by intro s hs; simp [middle1] at hs; rcases hs with h | h | h | h | h | h | h <;> simp [h])
+    (by decide) k
+example : view .bytewise (allEntries stSnap) k1 2 = some "a" ∧
+    view .bytewise (allEntries (runSteps .bytewise stSnap middle1)) k1 2 = some "a" ∧
+    view .bytewise (allEntries (runSteps .bytewise stSnap middle1)) k1 4 = none := by decide
+
+-- 8. the final state (one level-2 file holding `k2 ↦ c`) answers like the log of the three batches
+example (k : Bytes) :
+    view .bytewise (allEntries (runSteps .bytewise emptyState run1)) k (runSteps .bytewise emptyState run1).lastSeq =
+      view .bytewise (historyOf 0 run1) k (runSteps .bytewise emptyState run1).lastSeq :=
+  history_refines _ _ okRun1 (by decide) k
+example : allEntries (runSteps .bytewise emptyState run1) = [⟨k2, 4, 1, "c"⟩] ∧
+    historyOf 0 run1 = [⟨k1, 1, 1, "a"⟩, ⟨k2, 2, 1, "b"⟩, ⟨k1, 3, 0, ""⟩, ⟨k2, 4, 1, "c"⟩] := by decide
+
+-- recovery: the strengthened `addL0` contract keeps `NoSeqTies`
+example : NoSeqTies .bytewise (applyStep .bytewise stG (.addL0 g10)) :=
+  addL0_preserves_noSeqTies _ _ _ invG (by decide) okAddL0
+
+end Ex
 
 end Lcdb.C06
